@@ -677,16 +677,21 @@ func writeChunkedSegment(ctx context.Context, log *slog.Logger, w http.ResponseW
 	if err != nil {
 		return fmt.Errorf("convertToLive: %w", err)
 	}
+	if isImage(segmentPart) {
+		// Images are not chunked. They have data but no parsed segment.
+		w.Header().Set("Content-Type", so.meta.rep.SegmentType())
+		w.Header().Set("Content-Length", strconv.Itoa(len(so.data)))
+		_, err = w.Write(so.data)
+		if err != nil {
+			return fmt.Errorf("could not write image segment: %w", err)
+		}
+		return nil
+	}
 	if so.seg == nil {
 		return fmt.Errorf("no segment data for chunked segment")
 	}
 
 	w.Header().Set("Content-Type", so.meta.rep.SegmentType())
-	if isImage(segmentPart) {
-		w.Header().Set("Content-Length", strconv.Itoa(len(so.data)))
-		_, err = w.Write(so.data)
-		return fmt.Errorf("could not write image segment: %w", err)
-	}
 	rep := so.meta.rep
 	seg := so.seg
 
